@@ -266,7 +266,10 @@ package inference
 //@ define (marksKept m) (forall ((s primitiveSite)) (=> (old (mtrue m s)) (mtrue m s)))
 //@ define (marksSame m) (forall ((s primitiveSite)) (= (mtrue m s) (old (mtrue m s))))
 //@ -- an unexported site is in toExport only because both walks met there
-//@ define (promotedOK te re rfe) (forall ((s primitiveSite)) (=> (and (not (. s Exported)) (mtrue te s)) (or (mtrue re s) (mtrue rfe s))))
+//@ -- ... and no site carries both walk marks: the second walk to arrive promotes the site instead
+//@ define (promotedOK te re rfe) (and (forall ((s primitiveSite)) (=> (and (not (. s Exported)) (mtrue te s)) (or (mtrue re s) (mtrue rfe s))))
+//@    (forall ((s primitiveSite)) (not (and (mtrue re s) (mtrue rfe s)))))
+//@ define (otherMarksKept te re rfe) (forall ((r (typeof te))) (=> (and (not (= r te)) (not (= r re)) (not (= r rfe))) (and (= (mapdom r) (old (mapdom r))) (= (mapvals r) (old (mapvals r))) (= (len r) (old (len r))))))
 //@ define (threeMaps te re rfe) (and (not (= te nil)) (not (= re nil)) (not (= rfe nil)) (not (= te re)) (not (= te rfe)) (not (= re rfe)))
 
 //@ -- markReachesExported: the backward walk. Every site it newly visits has all its visitable implicants visited
@@ -276,6 +279,7 @@ package inference
 //@ requires (and (imOK i) (threeMaps toExport reachesExported reachableFromExported) (promotedOK toExport reachesExported reachableFromExported))
 //@ modifies (map toExport) (obj i.mapping) (map i.mapping.inner)
 //@ ensures graph-untouched (and (heap-unchanged (obj i.mapping)) (heap-unchanged (map i.mapping.inner)))
+//@ ensures other-maps-untouched (otherMarksKept toExport reachesExported reachableFromExported)
 //@ ensures promoted-ok (promotedOK toExport reachesExported reachableFromExported)
 //@ ensures maps-stay (and (= toExport (old toExport)) (= reachesExported (old reachesExported)) (= reachableFromExported (old reachableFromExported)) (= i (old i)))
 //@ ensures only-adds-marks (and (marksKept toExport) (marksKept reachesExported) (marksSame reachableFromExported))
@@ -283,6 +287,7 @@ package inference
 //@ ensures newly-visited-sites-are-closed (forall ((s primitiveSite)) (=> (and (bvis toExport reachesExported reachableFromExported s) (not (old (bvis toExport reachesExported reachableFromExported s))))
 //@    (and (visitable i s) (bclosed i toExport reachesExported reachableFromExported s))))
 //@ ensures promoted-only-when-both-walks-met (forall ((s primitiveSite)) (=> (and (mtrue toExport s) (not (old (mtrue toExport s)))) (mtrue reachableFromExported s)))
+//@ loop 0 invariant other-maps-untouched (otherMarksKept toExport reachesExported reachableFromExported)
 //@ loop 0 invariant walk (and (promotedOK toExport reachesExported reachableFromExported) (heap-unchanged (obj i.mapping)) (heap-unchanged (map i.mapping.inner)) (= toExport (old toExport)) (= reachesExported (old reachesExported)) (= reachableFromExported (old reachableFromExported)) (= i (old i))
 //@    (marksKept toExport) (marksKept reachesExported) (marksSame reachableFromExported)
 //@    (bvis toExport reachesExported reachableFromExported site)
@@ -297,6 +302,7 @@ package inference
 //@ requires (and (imOK i) (threeMaps toExport reachesExported reachableFromExported) (promotedOK toExport reachesExported reachableFromExported))
 //@ modifies (map toExport) (obj i.mapping) (map i.mapping.inner)
 //@ ensures graph-untouched (and (heap-unchanged (obj i.mapping)) (heap-unchanged (map i.mapping.inner)))
+//@ ensures other-maps-untouched (otherMarksKept toExport reachesExported reachableFromExported)
 //@ ensures promoted-ok (promotedOK toExport reachesExported reachableFromExported)
 //@ ensures maps-stay (and (= toExport (old toExport)) (= reachesExported (old reachesExported)) (= reachableFromExported (old reachableFromExported)) (= i (old i)))
 //@ ensures only-adds-marks (and (marksKept toExport) (marksKept reachableFromExported) (marksSame reachesExported))
@@ -304,6 +310,7 @@ package inference
 //@ ensures newly-visited-sites-are-closed (forall ((s primitiveSite)) (=> (and (fvis toExport reachesExported reachableFromExported s) (not (old (fvis toExport reachesExported reachableFromExported s))))
 //@    (and (visitable i s) (fclosed i toExport reachesExported reachableFromExported s))))
 //@ ensures promoted-only-when-both-walks-met (forall ((s primitiveSite)) (=> (and (mtrue toExport s) (not (old (mtrue toExport s)))) (mtrue reachesExported s)))
+//@ loop 0 invariant other-maps-untouched (otherMarksKept toExport reachesExported reachableFromExported)
 //@ loop 0 invariant walk (and (promotedOK toExport reachesExported reachableFromExported) (heap-unchanged (obj i.mapping)) (heap-unchanged (map i.mapping.inner)) (= toExport (old toExport)) (= reachesExported (old reachesExported)) (= reachableFromExported (old reachableFromExported)) (= i (old i))
 //@    (marksKept toExport) (marksKept reachableFromExported) (marksSame reachesExported)
 //@    (fvis toExport reachesExported reachableFromExported site)
@@ -427,3 +434,61 @@ package inference
 //@ ensures undetermined-diff-implicates (=> (and (isUndet newVal) (isUndet oldVal)) (edgesAreDiff (nImplicates result0) (nImplicates newVal) (nImplicates oldVal)))
 //@ ensures undetermined-diff-flag (=> (and (isUndet newVal) (isUndet oldVal)) (= result1 (or (> (len (. (nImplicants result0) Pairs)) 0) (> (len (. (nImplicates result0) Pairs)) 0))))
 //@ ensures nothing-old-touched (oldStateKept (nImplicants oldVal))
+
+//@ -- chooseSitesToExport, top level (C06): every exported site of the map is chosen; the two walks started from the
+//@ -- exported undetermined sites are closed (every visitable implicant of a backward-visited site is backward-visited,
+//@ -- every visitable implicate of a forward-visited site is forward-visited); a site visited by both walks is chosen;
+//@ -- and nothing else is chosen. Hence every chain exported -> unexported undetermined ... -> exported lies in the
+//@ -- chosen set (the graph-theoretic consequence is lemma export_convex, see /verif/lean).
+//@ define (walksClosed i te re rfe) (and
+//@    (forall ((s primitiveSite)) (=> (bvis te re rfe s) (and (visitable i s) (bclosed i te re rfe s))))
+//@    (forall ((s primitiveSite)) (=> (fvis te re rfe s) (and (visitable i s) (fclosed i te re rfe s)))))
+//@ define (rootClosed i te re rfe s) (=> (and (. s Exported) (= (det i s) 1)) (and (bclosed i te re rfe s) (fclosed i te re rfe s)))
+//@ define (chosenOK i te re rfe) (forall ((s primitiveSite)) (=> (mtrue te s) (and (imHas i s) (or (. s Exported) (and (visitable i s) (bvis te re rfe s) (fvis te re rfe s))))))
+//@ define (rootAt i j) (. (idx i.mapping.Pairs j) Key)
+//@ define (graphKept i) (and (heap-unchanged (obj i.mapping)) (heap-unchanged (map i.mapping.inner)) (= i.mapping (old i.mapping)))
+//@ define (rootsDone i te re rfe n) (and
+//@    (forall ((j Int)) (=> (and (<= 0 j) (<= j n) (. (rootAt i j) Exported)) (mtrue te (rootAt i j))))
+//@    (forall ((j Int)) (=> (and (<= 0 j) (<= j n)) (rootClosed i te re rfe (rootAt i j)))))
+//@ func (*InferredMap).chooseSitesToExport
+//@ prop C06 C03
+//@ requires (imOK i)
+//@ modifies (obj i.mapping) (map i.mapping.inner) (map result)
+//@ ensures graph-untouched (graphKept i)
+//@ ensures fresh-choice (and (fresh result) (not (= result nil)))
+//@ ensures exported-sites-are-chosen (forall ((s primitiveSite)) (=> (and (imHas i s) (. s Exported)) (mtrue result s)))
+//@ ensures walks-are-closed (walksClosed i result (local reachesExported) (local reachableFromExported))
+//@ ensures exported-roots-are-closed (forall ((s primitiveSite)) (=> (imHas i s) (rootClosed i result (local reachesExported) (local reachableFromExported) s)))
+//@ ensures sites-met-by-both-walks-are-chosen (forall ((s primitiveSite)) (=> (and (bvis result (local reachesExported) (local reachableFromExported) s) (fvis result (local reachesExported) (local reachableFromExported) s)) (mtrue result s)))
+//@ ensures nothing-else-is-chosen (chosenOK i result (local reachesExported) (local reachableFromExported))
+//@ assert after:chooseSitesToExport$2 backward-walk-keeps-forward-set (forall ((s primitiveSite)) (= (fvis toExport reachesExported reachableFromExported s) (atcall (fvis toExport reachesExported reachableFromExported s))))
+//@ assert after:chooseSitesToExport$1 forward-walk-keeps-backward-set (forall ((s primitiveSite)) (= (bvis toExport reachesExported reachableFromExported s) (atcall (bvis toExport reachesExported reachableFromExported s))))
+//@ assert at-exit:1 root-backward-closed (bclosed i toExport reachesExported reachableFromExported site)
+//@ assert at-exit:2 root-forward-closed (fclosed i toExport reachesExported reachableFromExported site)
+//@ define (walkMarksOnlyVisitable i re rfe) (forall ((s primitiveSite)) (=> (or (mtrue re s) (mtrue rfe s)) (visitable i s)))
+//@ loop 0 invariant walk-marks-only-on-visitable-sites (walkMarksOnlyVisitable i reachesExported reachableFromExported)
+//@ loop 1 invariant walk-marks-only-on-visitable-sites (walkMarksOnlyVisitable i reachesExported reachableFromExported)
+//@ loop 2 invariant walk-marks-only-on-visitable-sites (walkMarksOnlyVisitable i reachesExported reachableFromExported)
+//@ loop 0 invariant fresh-marks (and (fresh toExport) (fresh reachesExported) (fresh reachableFromExported))
+//@ loop 1 invariant fresh-marks (and (fresh toExport) (fresh reachesExported) (fresh reachableFromExported))
+//@ loop 2 invariant fresh-marks (and (fresh toExport) (fresh reachesExported) (fresh reachableFromExported))
+//@ loop 0 invariant roots (and (imOK i) (graphKept i) (threeMaps toExport reachesExported reachableFromExported) (promotedOK toExport reachesExported reachableFromExported)
+//@    (<= -1 rangeindex) (< rangeindex (len i.mapping.Pairs))
+//@    (rootsDone i toExport reachesExported reachableFromExported rangeindex)
+//@    (walksClosed i toExport reachesExported reachableFromExported)
+//@    (chosenOK i toExport reachesExported reachableFromExported))
+//@ loop 1 invariant backward-from-root (and (imOK i) (graphKept i) (threeMaps toExport reachesExported reachableFromExported) (promotedOK toExport reachesExported reachableFromExported)
+//@    (<= -1 rangeindex@0) (< (+ rangeindex@0 1) (len i.mapping.Pairs)) (= site (rootAt i (+ rangeindex@0 1))) (. site Exported) (mtrue toExport site) (= (det i site) 1) (= v (undet (imVal i site)))
+//@    (rootsDone i toExport reachesExported reachableFromExported rangeindex@0)
+//@    (walksClosed i toExport reachesExported reachableFromExported)
+//@    (chosenOK i toExport reachesExported reachableFromExported)
+//@    (<= -1 rangeindex) (< rangeindex (len (. (implicantsOf i site) Pairs)))
+//@    (forall ((k Int)) (=> (and (<= 0 k) (<= k rangeindex)) (let ((p (. (idx (. (implicantsOf i site) Pairs) k) Key))) (=> (visitable i p) (bvis toExport reachesExported reachableFromExported p))))))
+//@ loop 2 invariant forward-from-root (and (imOK i) (graphKept i) (threeMaps toExport reachesExported reachableFromExported) (promotedOK toExport reachesExported reachableFromExported)
+//@    (<= -1 rangeindex@0) (< (+ rangeindex@0 1) (len i.mapping.Pairs)) (= site (rootAt i (+ rangeindex@0 1))) (. site Exported) (mtrue toExport site) (= (det i site) 1) (= v (undet (imVal i site)))
+//@    (rootsDone i toExport reachesExported reachableFromExported rangeindex@0)
+//@    (walksClosed i toExport reachesExported reachableFromExported)
+//@    (chosenOK i toExport reachesExported reachableFromExported)
+//@    (bclosed i toExport reachesExported reachableFromExported site)
+//@    (<= -1 rangeindex) (< rangeindex (len (. (implicatesOf i site) Pairs)))
+//@    (forall ((k Int)) (=> (and (<= 0 k) (<= k rangeindex)) (let ((p (. (idx (. (implicatesOf i site) Pairs) k) Key))) (=> (visitable i p) (fvis toExport reachesExported reachableFromExported p))))))
